@@ -434,7 +434,7 @@ class _HTTPConnection(httputil.HTTPMessageDelegate):
             start_line = httputil.RequestStartLine(self.request.method, req_path, "")
             self.connection.write_headers(start_line, self.request.headers)
             if self.request.expect_100_continue:
-                await self.connection.read_response(self)
+                await self._read_response()
             else:
                 await self._write_body(True)
         except Exception:
@@ -514,10 +514,23 @@ class _HTTPConnection(httputil.HTTPMessageDelegate):
         self.connection.finish()
         if start_read:
             try:
-                await self.connection.read_response(self)
+                await self._read_response()
             except StreamClosedError:
                 if not self._handle_exception(*sys.exc_info()):
                     raise
+
+    async def _read_response(self) -> None:
+        ok = await self.connection.read_response(self)
+        if not ok and self.final_callback is not None:
+            # The response could not be parsed (read_response logged why
+            # and closed the connection) before any of our delegate methods
+            # could report it; without this the fetch would only end when
+            # the request timeout fires (or never, without a timeout).
+            self._handle_exception(
+                HTTPStreamClosedError,
+                HTTPStreamClosedError("Malformed or incomplete response"),
+                None,
+            )
 
     def _release(self) -> None:
         if self.release_callback is not None:
